@@ -23,11 +23,19 @@ pub struct ShapeCase {
 /// A robot with shape: small cubes on every link origin, a tool cube, a base block and random environment
 /// boxes. `q0` is verified collision free by the caller.
 pub fn make_case(r: &mut rand::rngs::StdRng, k: usize, nenv: usize, safety_margin: bool) -> ShapeCase {
+    make_case_with(r, k, nenv, safety_margin, None, &[])
+}
+
+/// `j1_limits`: optional non-wrapping J1 range (e.g. one that reaches beyond 180 degrees)
+pub fn make_case_with(r: &mut rand::rngs::StdRng, k: usize, nenv: usize, safety_margin: bool, j1_limits: Option<(f64, f64)>, extra_env: &[WBox]) -> ShapeCase {
     let p = Parameters::irb2400_10();
     let base_iso = if k % 3 == 0 { Iso::identity() } else { solver::random_iso(r, 0.3) };
     let tool_iso = if k % 2 == 0 { Iso { r: oracle::I3, t: [0.0, 0.0, 0.15] } } else { solver::random_iso(r, 0.15) };
-    let from: Joints = [-3.0, -1.7, -1.0, -3.4, -2.0, -6.0];
-    let to: Joints = [3.0, 1.9, 1.1, 3.4, 2.0, 6.0];
+    // (every fourth case has J6 limits that are not centred at zero)
+    let from: Joints = [-3.0, -1.7, -1.0, -3.4, -2.0, if k % 4 == 2 { -1.0 } else { -6.0 }];
+    let mut to: Joints = [3.0, 1.9, 1.1, 3.4, 2.0, 6.0];
+    let mut from = from;
+    if let Some((a, b)) = j1_limits { from[0] = a; to[0] = b; }
     let reference = Robot::new(p, vec![LayerF::Tool(tool_iso), LayerF::Base(base_iso)], Some((from, to, 0.0)));
     let q_lay: Joints = [0.0, 0.2, 0.1, 0.0, 0.9, 0.0];
     let links = reference.kin.forward_with_joint_poses(&q_lay);
@@ -63,6 +71,11 @@ pub fn make_case(r: &mut rand::rngs::StdRng, k: usize, nenv: usize, safety_margi
         let pose = nalgebra::Isometry3::identity();
         CollisionBody { mesh: scene::local_mesh(&sc.boxes[ie], e % 2 == 0, &pose), pose: pose.cast() }
     }).collect();
+    let mut env = env;
+    for b in extra_env {
+        let pose = nalgebra::Isometry3::identity();
+        env.push(CollisionBody { mesh: scene::local_mesh(b, false, &pose), pose: pose.cast() });
+    }
     let constraints = Constraints::new(from, to, BY_PREV);
     let (kws, ctor) = if k % 2 == 0 && !safety_margin {
         (KinematicsWithShape::new(p, constraints, joint_meshes, base_mesh, base_na, tool_mesh, tool_iso.to_na(), env, k % 4 == 0), "new")
@@ -71,7 +84,7 @@ pub fn make_case(r: &mut rand::rngs::StdRng, k: usize, nenv: usize, safety_margi
         special.insert((0, 101), -1.0); // J1 sits on the base block
         special.insert((1, 101), -1.0);
         let safety = SafetyDistances {
-            to_environment: if safety_margin { 0.02 } else { 0.0 },
+            to_environment: if safety_margin { 0.07 } else { 0.0 },
             to_robot_default: if safety_margin { 0.005 } else { 0.0 },
             special_distances: special,
             mode: if k % 4 == 1 { CheckMode::FirstCollisionOnly } else { CheckMode::AllCollsions },
@@ -91,10 +104,13 @@ pub fn record(output: &str) {
         let case = make_case(&mut r, k, if k % 3 == 2 { 0 } else { 2 + k % 4 }, k % 5 == 4);
         let kws = &case.kws;
         for rep in 0..4 {
-            let q: Joints = std::array::from_fn(|i| r.gen_range(case.from[i] * 0.8..case.to[i] * 0.8));
+            let mut q: Joints = std::array::from_fn(|i| r.gen_range(case.from[i] * 0.8..case.to[i] * 0.8));
+            // rep 2: almost (not exactly) wrist singular with previous = the current position (the continuation returns
+            // near-identical neighbours); rep 3: the CONSTRAINT_CENTERED sentinel
+            if rep == 2 { q[4] = 10f64.powf(r.gen_range(-7.0..-5.0)); }
             let want = case.reference.ofk(&q);
             let pose = want.to_na();
-            let prev: Joints = std::array::from_fn(|i| q[i] + r.gen_range(-0.1..0.1));
+            let prev: Joints = if rep == 2 { q } else if rep == 3 { rs_opw_kinematics::kinematic_traits::CONSTRAINT_CENTERED } else { std::array::from_fn(|i| q[i] + r.gen_range(-0.1..0.1)) };
             for entry in ["inverse", "inverse_continuing", "inverse_5dof", "inverse_continuing_5dof"] {
                 // 5-DOF entries presuppose an axial tool: only for the axial-tool cases
                 if entry.contains("5dof") && k % 2 != 0 { continue; }
